@@ -107,6 +107,15 @@ FAMILIES = [fam_stop_by_later_yield(), fam_rebind(), fam_rebind_norecur(), fam_n
 # programs with a hand-derived answer: what the NEXT round sees is exactly what `new` / the most recent `recur` bound, in the
 # scope where the literal was written (not the scope where `new` is called, not the previous round's scope)
 EXPECT = [
+    # a round that yields nothing ends THAT call of next with StopIterErr; the iterator goes on with the next round when asked again
+    ("stop_is_per_round", "gen := <{|i| recur(i + 1); yield i if i != 2}>\nit := gen.new(0)\n[it.next, it.next, it.try.next.err?, it.try.next.A, it.try.next.A].p\n"
+     "gen2 := <{|i| yield i if i < 2; recur(i + 1)}>\nit2 := gen2.new(0)\n[it2.next, it2.next, it2.try.next.err?, it2.try.next.err?].p\n",
+     "[0, 1, true, [3, nil], [4, nil]]\n[0, 1, true, true]\n"),
+    # StopIterErr raised by the FUNCTION of a chain over an iterator is an error like any other (only the iterator's own end stops the chain)
+    ("stop_from_the_callee_is_an_error", "g5 := <{|i| yield i if i < 5; recur(i + 1)}>\na := g5.new(0)\nb := g5.new(3)\n"
+     "[a.try.{|it| it@{|x| [x, b.next]}}.err.type._name, b.try.next.err?].p\nc := g5.new(0)\n"
+     "[c.try.{|it| it=@{|x| raise StopIterErr.new(\"mine\") if x == 3; x}}.err.msg, c.try.{|it| it@{|x| 1 / (2 - x)}}.err.type._name, g5.new(2)@{|x| x * x}].p\n",
+     '["StopIterErr", true]\n["mine", "ZeroDivisionErr", [4, 9, 16]]\n'),
     # `recur` only prepares the next round: the rest of the body still runs with this round's parameters and locals
     ("recur_before_yield", "<{|i| recur(i + 1); yield i if i <= 3}>.new(1).A.p\n<{|i| k := i * 2; recur(i + 1); yield [i, k] if i < 3}>.new(0).A.p\n"
      "it := <{|i| recur(i + 1); yield i if i <= 2}>.new(1)\n[it.next, it.next, it.try.next.err?].p\n"
